@@ -384,6 +384,7 @@ var explains = map[string]map[string]bool{
 	"tagged-response-header-absent":                 {"panic": true},
 	"recursive-result-type":                         {"view:nested": true},
 	"schema:map-key-elem-validation-not-documented": {"rejected:*": true},
+	"schema:non-string-key-map-is-free-form":        {"rejected:*": true},
 	"schema:null-body":                              {"leaked": true},
 	"schema:request-body-documented-required":       {"leaked": true},
 	"schema:map-length-not-documented":              {"rejected:invalid_length": true},
@@ -396,7 +397,7 @@ var explains = map[string]map[string]bool{
 	"header-array-multi":                            {"refused:*": true, "accepted": true, "mismatch:header-array": true},
 }
 
-var tagOrder = []string{"doc:catch-all-path-spans-segments", "doc:error-media-type", "doc:set-cookie-header-schema", "doc:header-mapped-attribute-in-body-schema", "doc:responses-sharing-status", "schema:map-key-elem-validation-not-documented", "schema:null-body", "schema:request-body-documented-required", "schema:map-length-not-documented", "schema:bytes-length-on-base64-text", "recursive-result-type", "tagged-response-header-absent", "required-object-outside-view", "both-exclusive-bounds", "required-cookie", "body-attr-absent", "path-value-with-slash", "header-array-multi", "absent-collection-minlen"}
+var tagOrder = []string{"doc:catch-all-path-spans-segments", "doc:error-media-type", "doc:set-cookie-header-schema", "doc:header-mapped-attribute-in-body-schema", "doc:responses-sharing-status", "schema:map-key-elem-validation-not-documented", "schema:non-string-key-map-is-free-form", "schema:null-body", "schema:request-body-documented-required", "schema:map-length-not-documented", "schema:bytes-length-on-base64-text", "recursive-result-type", "tagged-response-header-absent", "required-object-outside-view", "both-exclusive-bounds", "required-cookie", "body-attr-absent", "path-value-with-slash", "header-array-multi", "absent-collection-minlen"}
 
 // mkKey builds a violation key. class is the coarse finding class ("rejected:<name>", "leaked",
 // "misnamed:<name>", "refused:<name>", "accepted", "panic", "mismatch:..."). When the input belongs
